@@ -17,6 +17,7 @@ def run(rep: core.Report):
     rep.rule("R09b", "coupled flags: wherever mesh symmetry is switched off, time reversal handed to the symmetry library is off as well (GridPoints constructor paths, MeshBase callers)", 3)
     rep.rule("R09c", "the same point-group rotations reach stored and iterated meshes; the symmetry library receives them untransposed and the lattice-equivalence test their transposes", 4)
     rep.rule("R09d", "every consumer of a mesh weights its sum by the multiplicity of the same q-point and normalises by the sum of weights; consumers that need an unreduced mesh test for it before they start", 8)
+    rep.rule("R09e", "axis/weight typing of the mesh consumers (moments, DOS, thermal sums): every construct that sums over the irreducible q-points (sum/mean over that axis, np.dot/einsum contracting it, += in a loop over q) has the weight of the q-point on its operand, and the stored result is homogeneous of degree 0 in the weights (normalised by their sum)", 10)
     _r09a(rep)
     _r09b(rep)
     _r09c(rep)
@@ -145,17 +146,7 @@ def _r09d(rep):
         num, den = sp.fraction(sp.together(e))
         rep.instance("R09d", TP, f"ThermalPropertiesBase.{meth}", core.src(rets[0]), den == symalg.open_expr("np.sum(self._weights)"),
                      "the mesh sum is not normalised by the sum of weights (the number of grid points)", line=rets[0].lineno)
-    MO = "phonopy/phonon/moment.py"
-    for meth in ("_get_moment", "_get_projected_moment"):
-        m = core.find_def(MO, f"PhononMoment.{meth}")
-        loops = [lp for lp in ast.walk(m) if isinstance(lp, ast.For) and "self._weights" in core.src(lp.iter)]
-        ok = False
-        if loops:
-            names = [x.id for x in ast.walk(loops[0].target) if isinstance(x, ast.Name)]
-            w = names[-1]
-            accs = [s for s in ast.walk(loops[0]) if isinstance(s, ast.AugAssign)]
-            ok = bool(accs) and all(w in {x.id for x in ast.walk(a.value) if isinstance(x, ast.Name)} for a in accs)
-        rep.instance("R09d", MO, f"PhononMoment.{meth}", "every accumulation over q carries the weight of that q", ok, "a moment accumulation ignores the q-point weight", line=m.lineno)
+    _r09e(rep)
     # consumers that need the unreduced mesh
     api = core.find_def(API, "Phonopy")
     for meth in ("run_projected_dos", "run_thermal_displacements", "run_thermal_displacement_matrices", "init_dynamic_structure_factor"):
@@ -174,6 +165,58 @@ def _r09d(rep):
                      "a consumer that sums eigenvector-dependent quantities can be started on a symmetry-reduced mesh (its weights do not carry the rotation of eigenvectors)", line=m.lineno)
 
 
+QSCOPE = [
+    # file, class, method, where the result lands ("return" or attribute), extra seeds, element-wise callees
+    ("phonopy/phonon/moment.py", "PhononMoment", "_get_moment", "self._moment"),
+    ("phonopy/phonon/moment.py", "PhononMoment", "_get_projected_moment", "self._moment"),
+    ("phonopy/phonon/dos.py", "TotalDos", "run", "self._dos"),
+    ("phonopy/phonon/dos.py", "ProjectedDos", "_run_smearing_method", "self._projected_dos"),
+    ("phonopy/phonon/dos.py", "ProjectedDos", "_run_tetrahedron_method", "self._projected_dos"),
+    ("phonopy/phonon/thermal_properties.py", "ThermalPropertiesBase", "run_free_energy", "return"),
+    ("phonopy/phonon/thermal_properties.py", "ThermalPropertiesBase", "run_heat_capacity", "return"),
+    ("phonopy/phonon/thermal_properties.py", "ThermalPropertiesBase", "run_entropy", "return"),
+    ("phonopy/phonon/thermal_properties.py", "ThermalProperties", "__init__", "self._zero_point_energy"),
+]
+
+
+def _r09e(rep):
+    from engine import qaxis
+    from engine.qaxis import V
+
+    seeds = {
+        "self._frequencies": V(("q", "b")),
+        "self._weights": V(("q",), True, 1),
+        "self._eigenvectors": V(("q", "i", "b")),
+        "self._eigvecs2": V(("q", "i", "b")),
+        # iterating the tetrahedron mesh yields, per irreducible q-point, integration weights already divided by the number of grid points
+        "self._tetrahedron_mesh": V(("q", "f", "b"), False, -1),
+        "self._frequency_points": V(("f",)),
+    }
+    elementwise = {"func", "calc", "mode_F", "mode_S", "mode_cv", "mode_zero"}
+    for rel, cn, mn, where in QSCOPE:
+        cls = core.find_def(rel, cn)
+        methods = {m.name: m for m in cls.body if isinstance(m, ast.FunctionDef)}
+        if mn not in methods:
+            raise AnalysisError(f"anchor vanished: {cn}.{mn}")
+        ty = qaxis.QTyper(methods[mn], seeds, methods, elementwise)
+        problems = ty.run()
+        for u in ty.unknown:
+            rep.unknown(f"R09e {cn}.{mn}: {u}")
+        if where == "return":
+            res = qaxis.merge_returns(ty.returns)
+        else:
+            res = ty.stores.get(where)
+        if not problems and not ty.reductions:
+            raise AnalysisError(f"R09e: no sum over q recognised in {cn}.{mn} (the consumer changed shape; re-anchor the rule)")
+        rep.instance("R09e", rel, f"{cn}.{mn}", f"{len(ty.reductions)} weighted sum(s) over q", not problems,
+                     (problems[0].message if problems else "") + ": on a symmetry-reduced mesh the result differs from the full-mesh one", line=(problems[0].node.lineno if problems else methods[mn].lineno))
+        if isinstance(res, V) and res.deg is not None:
+            rep.instance("R09e", rel, f"{cn}.{mn}", f"{where} is homogeneous of degree 0 in the weights", res.deg == 0,
+                         f"{where} scales like weights^{res.deg}: the mesh sum is not normalised by the sum of weights", line=methods[mn].lineno)
+        else:
+            rep.unknown(f"R09e {cn}.{mn}: degree of {where} in the weights not determined")
+
+
 def selftest():
     V = []
     b = lambda name, file, old, new, rule, expect="", **kw: V.append(dict(name=name, kind="break", file=file, old=old, new=new, rule=rule, expect=expect, **kw))
@@ -183,5 +226,17 @@ def selftest():
     b("weights counted over unique points only", GP, "    for gp in grid_mapping_table:\n        weights[gp] += 1", "    for gp in ir_grid_points:\n        weights[gp] += 1", "R09a", "weights")
     b("thermal sum forgets the weight", "phonopy/phonon/thermal_properties.py", "                    np.sum(func(t, freqs[cond], classical=self._classical)) * w\n", "                    np.sum(func(t, freqs[cond], classical=self._classical))\n", "R09d", "_calculate_thermal_property")
     b("thermal displacement accepts a reduced mesh", API, "        if np.prod(mesh_nums) != len(ir_grid_points):\n            msg = \"run_mesh has to be done with is_mesh_symmetry=False.\"\n            raise RuntimeError(msg)\n\n        if direction is not None:\n            projection_direction", "        if direction is not None:\n            projection_direction", "R09d", "run_thermal_displacements")
+    MO = "phonopy/phonon/moment.py"
+    DOS = "phonopy/phonon/dos.py"
+    TPF = "phonopy/phonon/thermal_properties.py"
+    b("moment normalisation counts modes without weight", MO, "                    norm0 += w\n", "                    norm0 += 1\n", "R09e", "_get_moment")
+    b("projected moment forgets the weight", MO, "                    moment += freq**order * w * projection", "                    moment += freq**order * projection", "R09e", "_get_projected_moment")
+    b("moment not normalised", MO, "        self._moment = moment / norm0", "        self._moment = moment", "R09e", "degree")
+    b("total DOS sums q without weights", DOS, "            np.dot(self._weights, self._smearing_function.calc(self._frequencies - f))\n", "            self._smearing_function.calc(self._frequencies - f)\n", "R09e", "TotalDos.run")
+    b("tetrahedron DOS forgets the weight", DOS, "                    self._dos += np.sum(iw * self._weights[i], axis=1)", "                    self._dos += np.sum(iw, axis=1)", "R09e", "TotalDos.run")
+    b("projected DOS uses unnormalised weights", DOS, "        weights = self._weights / float(np.sum(self._weights))", "        weights = self._weights", "R09e", "degree")
+    b("zero-point energy forgets the weight", TPF, "                zp_energy += np.sum(positive_fs) * w / 2", "                zp_energy += np.sum(positive_fs) / 2", "R09e", "ThermalProperties.__init__")
+    n("moment loop vectorised", MO, "        moment = 0\n        norm0 = 0\n        for i, w in enumerate(self._weights):\n            for freq in self._frequencies[i]:\n                if self._fmin < freq and freq < self._fmax:\n                    norm0 += w\n                    moment += freq**order * w\n", "        ok = np.logical_and(self._fmin < self._frequencies, self._frequencies < self._fmax)\n        norm0 = np.dot(self._weights, ok.sum(axis=1))\n        moment = np.dot(self._weights, np.where(ok, self._frequencies**order, 0).sum(axis=1))\n")
+    n("total DOS via einsum", DOS, "            np.dot(self._weights, self._smearing_function.calc(self._frequencies - f))\n", "            np.einsum('q,qb->b', self._weights, self._smearing_function.calc(self._frequencies - f))\n")
     b("lattice equivalence with untransposed rotations", GP, "get_lattice_vector_equivalence([r.T for r in self._rotations])", "get_lattice_vector_equivalence([r for r in self._rotations])", "R09c", "_has_mesh_symmetry")
     return V
